@@ -36,13 +36,16 @@ theorem expected_map_range_sites : Generated.mapRangeSites =
 its address taken outside its declaration: packages processed in one invocation share no mutable state. -/
 theorem no_mutable_package_state : Generated.mutablePackageVars = [] := by decide
 
-/-- The package-level variables that exist at all: main's four flag pointers and one string constant-like var. -/
+/-- The package-level variables that exist at all: main's four flag pointers, one string constant-like var and one
+regular expression compiled at initialisation (never assigned afterwards: `no_mutable_package_state`; a *regexp.Regexp is
+safe for concurrent read-only use and carries no per-package state). -/
 theorem package_vars_expected : Generated.packageVars =
     ["derive/params.go:blackIdentifier:string",
      "main.go:autoname:*bool",
      "main.go:dedup:*bool",
      "main.go:pluginprefix:*string",
-     "main.go:prefix:*string"] := by decide
+     "main.go:prefix:*string",
+     "plugin/deepcopy/deepcopy.go:unsafeRoot:*regexp.Regexp"] := by decide
 
 /-! ### site 1: union of the reserved-name sets -/
 
